@@ -13,7 +13,11 @@ def run_one(scn, timeout=120, keep=None, kill_after=None):
                              env=dict(os.environ, GOMAXPROCS=str(scn.get("gomaxprocs", 4)), GOMEMLIMIT="2GiB"))
         line = (json.dumps(dict(scn, op="run")) + "\n").encode()
         if kill_after is not None:
-            p.stdin.write(line); p.stdin.flush()
+            p.stdin.write((json.dumps(dict(scn, op="run", announceStart=True)) + "\n").encode()); p.stdin.flush()
+            while True:                      # the delay counts from the moment the pipeline is up
+                l = p.stdout.readline()
+                if not l or l.strip() == b"STARTED":
+                    break
             time.sleep(kill_after)
             p.send_signal(signal.SIGKILL)
             p.wait()
@@ -57,3 +61,165 @@ def requests_by_key(rep):
     for r in rep.get("requests") or []:
         out.setdefault(r["key"], []).append(r)
     return out
+
+
+# ---------------------------------------------------------------- C04: kill / stop, then restart on the same job directory
+
+def free_port():
+    import socket
+    s = socket.socket()
+    s.bind(("0.0.0.0", 0))
+    p = s.getsockname()[1]
+    s.close()
+    return p
+
+
+def c04_site(r, nseeds):
+    site, tree = {}, {}
+    for k in range(nseeds):
+        assets = ["/q%d/a%d.png" % (k, i) for i in range(r.randrange(0, 5))]
+        site["/q%d/" % k] = {"ctype": "text/html", "body": {"kind": "html", "assets": assets, "outlinks": []}, "delayMs": r.choice([0, 0, 30])}
+        for i, a in enumerate(assets):
+            site[a] = {"ctype": "image/png", "body": {"kind": "png", "size": r.choice([200, 20000, 400000, 3000000]), "seed": i + k}, "delayMs": r.choice([0, 20, 150])}
+        tree["/q%d/" % k] = assets
+    return site, tree
+
+
+def c04_one(ctx, r, mode):
+    """mode: 'kill' (SIGKILL after a seeded delay) or 'stop' (graceful stop after k requests); then restart until drained"""
+    port = free_port()
+    nseeds = r.randrange(3, 9)
+    site, tree = c04_site(r, nseeds)
+    seeds = list(tree)
+    bad_at = None
+    if r.random() < 0.4:
+        bad_at = r.randrange(0, len(seeds))
+        seeds.insert(bad_at, "raw:{BASE}/bad/100%zz")          # an outlink that cannot be parsed, stored as found
+    cfg = {"workers": r.choice([1, 2, 4]), "maxConcurrentAssets": r.choice([1, 2, 4]), "maxRetry": 0, "httpTimeout": 5, "warcPoolSize": r.choice([1, 2])}
+    scn = {"seeds": seeds, "site": site, "cfg": cfg, "port": port, "job": "j"}
+    d = tempfile.mkdtemp(prefix="verif-c04-", dir=SCRATCH)
+    rp = {"domain": "e2e-restart", "scenario": scn, "mode": mode}
+    try:
+        if mode == "kill":
+            delay = r.choice([0.0, 0.02, 0.05, 0.1, 0.2, 0.4, 0.8, 1.5])
+            rp["killAfter"] = delay
+            run_one(dict(scn, stop={"when": "drain", "timeoutMs": 30000}), keep=d, kill_after=delay)
+        else:
+            k = r.randrange(1, 12)
+            rp["stopAfterRequests"] = k
+            rep1, err1 = run_one(dict(scn, stop={"when": "requests", "n": k, "extraMs": r.choice([0, 20]), "timeoutMs": 8000}), keep=d, timeout=90)
+            if rep1.get("died") or rep1.get("stopPanic") or rep1.get("stopHung"):
+                ctx.violation("the first run did not stop cleanly: %s" % {x: y for x, y in rep1.items() if x in ("died", "panic", "stopPanic", "stopHung")}, rp)
+                return
+        # what is on disk now
+        insp, _ = run_one({"inspectOnly": True, "job": "j"}, keep=d, timeout=60)
+        rows = insp.get("lqRows") or []
+        if any(x.startswith("err") for x in rows):
+            raise RuntimeError("e2e restart: the queue file is unreadable after the first run: %s" % rows)
+        left = {x.split("|")[0] for x in rows}
+        recs = insp.get("warcRecords") or []
+        base = "http://127.0.0.2:%d" % port
+        on_disk = {rc["uri"] for rc in recs if rc["type"] in ("response", "revisit") and rc["complete"] and not rc.get("err")}
+        # complete records only, except possibly the tail of a file after a kill
+        bad = [rc for rc in recs if (not rc["complete"] or rc.get("err"))]
+        if bad:
+            ctx.violation("a record in the middle of a WARC file is incomplete / unreadable after %s: %s" % (mode, bad[0]), rp); return
+        if mode == "stop" and insp.get("warcTrailing"):
+            ctx.violation("a WARC file ends in an incomplete member after a graceful stop: %s" % insp["warcTrailing"], rp); return
+        finished = 0
+        for i, sp in enumerate(seeds):
+            sid = "s%d" % i
+            if sid in left:
+                continue
+            finished += 1
+            if sp.startswith("raw:"):
+                continue
+            need = [sp] + tree[sp]
+            missing = [u for u in need if base + u not in on_disk]
+            if missing:
+                ctx.violation("%s (%s) was reported finished (its queue row is gone) after %s, but no capture of %s is in the WARC files on disk" % (
+                    sid, sp, mode, missing), rp); return
+        ctx.count("c04-e2e:%s" % mode)
+        ctx.count("c04-e2e:finished-before-restart", finished)
+        # restart on the same job directory
+        rep2, err2 = run_one(dict(scn, restart=True, stop={"when": "drain", "timeoutMs": 60000}), keep=d, timeout=150)
+        if not rep2.get("drained"):
+            ctx.violation("after the restart the queue did not drain: rows %s %s" % (rep2.get("lqRows"), {x: y for x, y in rep2.items() if x in ("died", "panic", "stopPanic", "stopHung")}), rp); return
+        if rep2.get("lqRows"):
+            ctx.violation("after the restart rows stay in the queue: %s" % rep2["lqRows"], rp); return
+        again = {q["key"] for q in rep2.get("requests") or []}
+        first_run = set()
+        try:
+            runs = open(os.path.join(d, "origin.journal")).read().split("# run\n")
+            first_run = set(runs[1].split()) if len(runs) > 1 else set()
+        except OSError:
+            pass
+        for i, sp in enumerate(seeds):
+            if "s%d" % i in left and not sp.startswith("raw:") and sp not in again:
+                msg = "s%d (%s) was unfinished when the first run ended (%s) but was not crawled again after the restart" % (i, sp, mode)
+                if sp in first_run and not cfg.get("disableSeencheck"):
+                    # the first run had already requested the seed's own URL, i.e. recorded it in the local seen-store
+                    ctx.known_finding("D20", msg, rp)
+                else:
+                    ctx.violation(msg, rp); return
+        ctx.case(json.dumps([mode, cfg, seeds, rp.get("killAfter"), rp.get("stopAfterRequests")]), 0 < finished < len(seeds))
+    finally:
+        shutil.rmtree(d, ignore_errors=True)
+
+
+def c04_malformed(ctx, r):
+    """a URL that cannot be parsed sits in the queue among good ones (outlinks are stored as found): the good ones must still be crawled"""
+    site, tree = c04_site(r, r.randrange(3, 6))
+    seeds = list(tree)
+    seeds.insert(r.randrange(0, 2), "raw:{BASE}/bad/100%zz")
+    scn = {"seeds": seeds, "site": site, "cfg": {"workers": r.choice([1, 2]), "maxConcurrentAssets": 2, "maxRetry": 0, "httpTimeout": 5},
+           "stop": {"when": "drain", "timeoutMs": 40000}}
+    rep, err = run_one(scn, timeout=120)
+    rp = {"domain": "e2e", "scenario": scn}
+    if not rep.get("drained"):
+        ctx.violation("the queue with a malformed URL in it did not drain: %s" % {k: v for k, v in rep.items() if k in ("lqRows", "died", "panic")}, rp); return
+    got = {q["key"] for q in rep.get("requests") or []}
+    on_disk = {rc["uri"] for rc in rep.get("warcRecords") or [] if rc["type"] in ("response", "revisit") and rc["complete"]}
+    for sp in seeds:
+        if sp.startswith("raw:"):
+            continue
+        for u in [sp] + tree[sp]:
+            if u not in got or rep["base"] + u not in on_disk:
+                ctx.violation("%s was reported finished (the queue is empty) but %s was %s" % (sp, u, "never requested" if u not in got else "not captured"), rp); return
+    ctx.count("c04-e2e:malformed-in-queue")
+    ctx.case(json.dumps(["malformed", seeds]), True)
+
+
+def c04_ack_snapshot(ctx, r):
+    """finished implies captured, observed at the acknowledgement itself (fake crawl HQ snapshotting the WARC directory)"""
+    assets = ["/f/big.bin", "/f/flaky.png", "/f/small.png"]
+    site = {"/f/": {"ctype": "text/html", "body": {"kind": "html", "assets": assets, "outlinks": []}},
+            "/f/big.bin": {"ctype": "application/octet-stream", "body": {"kind": "bin", "size": r.choice([20000000, 45000000]), "seed": 2}},
+            "/f/flaky.png": {"ctype": "image/png", "body": {"kind": "png", "size": 100, "seed": 3}, "attempts": [{"status": 503}, {}]},
+            "/f/small.png": {"ctype": "image/png", "body": {"kind": "png", "size": 100, "seed": 4}}}
+    scn = {"useHQ": True, "snapshotAtAck": True, "seeds": ["/f/"], "site": site, "stop": {"when": "drain", "timeoutMs": 60000},
+           "cfg": {"workers": 1, "maxConcurrentAssets": r.choice([2, 3]), "maxRetry": 1, "httpTimeout": 20, "hqBatchSize": 1, "discardStatus": []}}
+    rep, err = run_one(scn, timeout=150)
+    rp = {"domain": "e2e", "scenario": scn}
+    acks = rep.get("acks") or []
+    if not rep.get("drained") or len(acks) != 1:
+        ctx.violation("the crawl did not finish with one acknowledgement: %s" % {k: v for k, v in rep.items() if k in ("drained", "died", "panic")}, rp); return
+    on = {x.rsplit(" ", 1)[0] for x in acks[0].get("onDisk") or []}
+    for q in rep.get("requests") or []:
+        if q["mode"] == "ok" and rep["base"] + q["key"] not in on:
+            ctx.violation("the seed was reported finished while the capture of %s (%d bytes) was not yet in the WARC files on disk" % (q["key"], q["len"]), rp); return
+    ctx.count("c04-e2e:ack-snapshot")
+    ctx.case(json.dumps(["ack-snapshot", scn["cfg"]]), True)
+
+
+def c04_scenarios(ctx, n=None):
+    r = ctx.rng
+    import random as _random
+    for k in range(6 if ctx.thorough() else 1):
+        c04_malformed(ctx, _random.Random(r.randrange(1 << 30)))
+        c04_ack_snapshot(ctx, _random.Random(r.randrange(1 << 30)))
+    n = n if n is not None else (60 if ctx.thorough() else 4)
+    jobs = [("kill" if k % 2 == 0 else "stop", r.randrange(1 << 30)) for k in range(n)]
+    import random
+    with concurrent.futures.ThreadPoolExecutor(max_workers=8) as ex:
+        list(ex.map(lambda j: c04_one(ctx, random.Random(j[1]), j[0]), jobs))
